@@ -8,6 +8,7 @@ import (
 	"os"
 	"path/filepath"
 	"strings"
+	"time"
 
 	"github.com/klev-dev/klevdb"
 	"github.com/klev-dev/klevdb/pkg/index"
@@ -293,6 +294,48 @@ func codecStep(dir string, f []string) (res string) {
 			}
 		}
 		return "ok " + readFileHex(s.Log) + " " + readFileHex(s.Index) + extra + " steps=" + strings.Join(steps, ",")
+	case "segbk":
+		// segbk base srclog srcidx mtL mtI tgtlog|none tmtL tgtidx|none tmtI: Segment.Backup of one segment into a target
+		// directory holding these files with these modification times (seconds); the target's files and times afterwards
+		s := putFiles(dir, atoi(f[1]), f[2], f[3])
+		setMt := func(path, secs string) {
+			t := time.Unix(atoi(secs), 0)
+			if err := os.Chtimes(path, t, t); err != nil {
+				panic(err)
+			}
+		}
+		setMt(s.Log, f[4])
+		setMt(s.Index, f[5])
+		tdir := dir + ".t"
+		os.RemoveAll(tdir)
+		if err := os.MkdirAll(tdir, 0700); err != nil {
+			panic(err)
+		}
+		defer os.RemoveAll(tdir)
+		tl, ti := filepath.Join(tdir, filepath.Base(s.Log)), filepath.Join(tdir, filepath.Base(s.Index))
+		if f[6] != "none" {
+			if err := os.WriteFile(tl, unhx(f[6]), 0600); err != nil {
+				panic(err)
+			}
+			setMt(tl, f[7])
+		}
+		if f[8] != "none" {
+			if err := os.WriteFile(ti, unhx(f[8]), 0600); err != nil {
+				panic(err)
+			}
+			setMt(ti, f[9])
+		}
+		if err := s.Backup(tdir); err != nil {
+			return "err " + errClass(err)
+		}
+		mt := func(path string) int64 {
+			fi, err := os.Stat(path)
+			if err != nil {
+				return -1
+			}
+			return fi.ModTime().Unix()
+		}
+		return fmt.Sprintf("ok %s %d %s %d", readFileHex(tl), mt(tl), readFileHex(ti), mt(ti))
 	case "pubseg":
 		// pubseg t k base loghex idxhex msgs...: Open, Publish, Close on a directory with this one segment
 		p := index.Params{Times: f[1] == "1", Keys: f[2] == "1"}
